@@ -566,6 +566,39 @@ def rule_available(ctx):
     ctx.ob(R, fm, comps[0], verdicts == want and bool(g.ifs), f"availability filter gives {verdicts}; a partition is available exactly when its leader id is not -1 (broker id 0 is a broker)", text="filter")
 
 
+
+def rule_partition_count(ctx):
+    R = "partition-count"
+    ctx.rep.rule(R, "the modulus of a keyed record is the topic's partition count as the cluster states it, whatever the partitions' health: "
+                    "ClusterMetadata.update_metadata registers EVERY partition entry of a topic that was returned without a topic error (the "
+                    "store into the new partition map lies on every normal path through the partition loop -- leaderless, erroneous or offline "
+                    "partitions included, as in the Java client), publishes that map as `_partitions`, and partitions_for_topic returns "
+                    "exactly its keys")
+    fu = ctx.fn("aiokafka.cluster.ClusterMetadata.update_metadata")
+    c = ctx.cfg(fu)
+    sts = [n for n in c.nodes if n.kind == "store" and isinstance(n.ast, ast.Subscript) and isinstance(n.ast.value, ast.Subscript)
+           and unparse(n.ast.value.value) == "_new_partitions"]
+    ctx.anchor(len(sts) == 1, "_new_partitions[topic][partition] = ... in update_metadata")
+    st = sts[0]
+    loops = c.enclosing(st, types=(ast.For,), role="body")
+    ctx.anchor(bool(loops), "partition loop around the registration")
+    la = min((l for l, _r in loops), key=lambda l: (l.end_lineno or l.lineno) - l.lineno)     # the innermost loop
+    head = c.loop_head(la)
+    nxt = [n for n in c.nodes if n.kind == "fornext" and n.ast is la][0]
+    body_start = [m for m, l in nxt.succ if l == "T"]
+    skipped = head in c.reachable(body_start, avoid=[st], exc=False, include_src=True)
+    tv = [unparse(x) for x in la.target.elts] if isinstance(la.target, ast.Tuple) else []
+    ok = not skipped and unparse(st.ast.slice) in tv and unparse(la.iter) == "partitions"
+    ctx.ob(R, fu, st, ok, "a partition entry of the metadata reply can be left out of the partition map (an iteration of the partition loop reaches the next "
+                          "one without registering it): partitions_for_topic shrinks and keyed records are placed modulo the wrong count", text="registers-every-partition")
+    pub = [n for n in c.stores(attr="_partitions") if unparse(n.ast) == "self._partitions"]
+    ctx.ob(R, fu, fu.node, len(pub) == 1 and unparse(pub[0].stmt.value) == "_new_partitions", "the new partition map is not what update_metadata publishes", text="publishes-map")
+    fp = ctx.fn("aiokafka.cluster.ClusterMetadata.partitions_for_topic")
+    rets = [r for r in ast.walk(fp.node) if isinstance(r, ast.Return) and r.value is not None and not (isinstance(r.value, ast.Constant) and r.value.value is None)]
+    ok = len(rets) == 1 and unparse(rets[0].value) in ("set(self._partitions[topic].keys())", "set(self._partitions[topic])")
+    ctx.ob(R, fp, fp.node, ok, "partitions_for_topic does not return exactly the registered partition ids of the topic", text="returns-keys")
+
+
 def run(ctx):
     rep = ctx.rep
     rep.explanation = ("C17: murmur2 is evaluated symbolically on 32-bit terms and compared term for term with the Java algorithm (all four tail "
@@ -575,5 +608,6 @@ def run(ctx):
     rule_width(ctx)
     rule_route(ctx)
     rule_available(ctx)
+    rule_partition_count(ctx)
     rep.nd("bit-for-bit equality with Java for concrete keys is implied by term equality modulo 2^32 plus the width rule, under the assumption that "
            "Python's `bytes` indexing yields 0..255; no concrete key is hashed by this check")
